@@ -12,5 +12,58 @@ TEXTS["C01"] = {
             "hook H1 only supplies coverage evidence. NEON/WASM not executed.",
     "technique": "runtime differential monitoring against an f64 reference model with per-sample error bound, under rel/ASan/debug-assertion builds",
 }
-for i in range(2, 19):
+TEXTS["C02"] = {
+    "text": "The same resize (and the same alpha multiply/divide) is executed on the portable, SSE4.1 and AVX2 back-ends and the outputs "
+            "are compared component by component with the allowance the property states (integers bit-equal; 16-bit alpha division +-1; "
+            "floats 2 ulp of the summed magnitude). The H1 pass hook proves that every vector-width residue class (window length mod 8, "
+            "rows mod 4, row bytes mod 32) and 6+/10+ distinct fixed-point precisions were executed for every pixel type and pass.",
+    "design_ref": "DESIGN.md section 2, C02",
+    "note": "Differential: a defect shared by all three back-ends is invisible here (C01 covers that). Custom-filter cases outside "
+            "the sum|w|<4 envelope are skipped. NEON/WASM not executed.",
+    "technique": "runtime differential monitoring between CPU back-ends with hook-measured residue coverage",
+}
+TEXTS["C07"] = {
+    "text": "Metamorphic monitor: pairs of sources that differ only in (finite) colours under alpha = 0 must give identical results; zero "
+            "destination alpha implies zero colour; an opaque source gives the alpha-off result; the alpha channel equals plain resampling; "
+            "non-alpha types ignore the option. Checked on all six alpha types x three back-ends over transparent stripes, islands, "
+            "borders and single pixels.",
+    "design_ref": "DESIGN.md section 2, C07",
+    "note": "Geometries where the destination has the size of an integer crop are excluded: C12 demands a bit-exact copy there for every "
+            "alpha setting. Non-finite colours under zero alpha are not generated.",
+    "technique": "runtime metamorphic monitoring (input pairs, relations between outputs)",
+}
+TEXTS["C10"] = {
+    "text": "Constant images of every 8-bit value and of extreme/mid/random wider values are resized with random and extreme geometries "
+            "(kernels of 1..8192 taps judged, up to 65 000 explored) on three back-ends; every destination component must equal the "
+            "constant exactly (floats within 1 ulp).",
+    "design_ref": "DESIGN.md section 2, C10",
+    "note": "Verdict domain limited to kernels <= 8192 taps ('several thousand' in the property).",
+    "technique": "runtime monitoring with an exact oracle (constant in, constant out)",
+}
+TEXTS["C11"] = {
+    "text": "Identity-tagged sources are resized with Nearest and every destination pixel is compared bit for bit with the source pixel "
+            "under its centre (index formula of the property, either neighbour only inside a stated rounding band). Sub-pixel crops flush "
+            "against the right/bottom edge are a dedicated class; the same workload also runs under AddressSanitizer and Miri so an "
+            "out-of-row read is reported even if the value happens to match.",
+    "design_ref": "DESIGN.md section 2, C11",
+    "note": "The rounding band is 4(n+2) ulp of the coordinate; pixels inside it accept a neighbour.",
+    "technique": "runtime monitoring with an index-formula oracle over identity-tagged images, under rel/ASan/Miri",
+}
+TEXTS["C12"] = {
+    "text": "Same-size resizes must return the integer crop region bit for bit for every algorithm and alpha setting; when one dimension "
+            "matches, each row/column of the result must equal the resize of that row/column alone (row locality, which holds iff nothing "
+            "is resampled along the matching axis); SuperSampling with an intermediate of destination size must return the nearest picks.",
+    "design_ref": "DESIGN.md section 2, C12",
+    "note": "Float locality is judged with C02's allowance; for float alpha-aware resizes only the alpha channel is judged in the locality modes.",
+    "technique": "runtime monitoring: exact copy oracle and row-locality differential",
+}
+TEXTS["C18"] = {
+    "text": "For the four non-negative filters every destination component must stay inside the source channel's [min,max] and ordered "
+            "image pairs A <= B must give ordered results, exactly for integers and to 1 ulp for floats, on three back-ends with value "
+            "ranges anywhere in the component range and kernels up to 8192 taps.",
+    "design_ref": "DESIGN.md section 2, C18",
+    "note": "Alpha handling off as the property states; kernels > 8192 taps are outside the verdict domain.",
+    "technique": "runtime monitoring: range oracle and metamorphic order oracle",
+}
+for i in (3, 4, 5, 6, 8, 9, 13, 14, 15, 16, 17):
     NOT_APPLICABLE.append({"property_id": "C%02d" % i, "reason": "monitor not built yet (work in progress; see DESIGN.md section 2)"})
